@@ -463,4 +463,15 @@ PLANS["C01"] = {
     "assumptions": ["dump via public read API", "reference model = harness/eggmon/src/model.rs"],
 }
 
+PLANS["C02"] = {
+    "jobs": simple_jobs("c02", 1200, 60000, par_n=(40, 4000)),
+    "level": "exploration",
+    "technique": "reference-oracle runtime monitor: independent hash-join evaluation of each rule body over the engine's pre-run dump vs the rows the run actually wrote; every body with and without :no-decomp; three runs per database with growth / unions / deletions / subsumptions in between",
+    "level_text": "Conjunctive bodies of every hypergraph shape the property lists (chains, stars, 3/4/5-cycles, 4-cliques, lollipops, products, repeated variables, constants, i64 columns, function and constructor atoms, duplicates, primitive guards, computed variables) over generated databases (0..400 rows per table, skews, sizes straddling the 32-tuple re-sort threshold, subsumed rows, unions) write all their variables to an Out relation; after each run Out must equal Out_before + the oracle's matches on the database as it stood when the iteration began. The same rules are re-run after the database changed (cached plans). Decomposition on/off (rule option and global flag); serial and 4-thread/cut-off-0 children.",
+    "level_note": "The oracle is ~120 lines of hash joins over the dump (public read API) and shares no code with the engine or with C01's model. Planner strategies other than the language's default (Gj) are reachable only through internal rebuild rules; they are exercised by every rebuild but not varied here.",
+    "floors": {"quick": {"rule_runs_judged": 10000, "rule_runs_nontrivial": 2000, "path:plan_decomposed": 500, "path:plan_dynamic_resort": 10000, "matches_expected_total": 500000},
+               "thorough": {"rule_runs_judged": 500000, "rule_runs_nontrivial": 100000, "path:plan_decomposed": 25000, "path:plan_dynamic_resort": 500000, "matches_expected_total": 25000000}},
+    "assumptions": ["dump via public read API", "heads only insert into fresh Out relations, so ids are stable across the run"],
+}
+
 NOT_APPLICABLE = {}
